@@ -213,6 +213,60 @@ func (w *World) postApply(n *Node, snap *validateSnap, s consensus.State, e *blo
 	if diffDigest(au2.SiacoinElementDiffs(), au2.SiafundElementDiffs(), au2.FileContractElementDiffs(), au2.V2FileContractElementDiffs()) != sig {
 		w.violate("C09", "apply-diffs-not-repeatable", ctx+": second ApplyBlock gave different diffs")
 	}
+	// the same inputs held in slices with room to spare (as proofs grown by
+	// append are): nothing may be written into that room either
+	{
+		sb, e2 := decodeBlock(encodeBlock(b))
+		if e2 == nil && bytes.Equal(fullBlockBytes(sb), snap.block) {
+			sbs := copySupp(bs)
+			var all []*types.StateElement
+			for i := range sb.V2Transactions() {
+				v2Parents(&sb.V2.Transactions[i], func(se *types.StateElement) { all = append(all, se) })
+			}
+			for i := range sbs.Transactions {
+				ts := &sbs.Transactions[i]
+				for j := range ts.SiacoinInputs {
+					all = append(all, &ts.SiacoinInputs[j].StateElement)
+				}
+				for j := range ts.SiafundInputs {
+					all = append(all, &ts.SiafundInputs[j].StateElement)
+				}
+				for j := range ts.RevisedFileContracts {
+					all = append(all, &ts.RevisedFileContracts[j].StateElement)
+				}
+				for j := range ts.StorageProofs {
+					all = append(all, &ts.StorageProofs[j].FileContract.StateElement)
+				}
+			}
+			for j := range sbs.ExpiringFileContracts {
+				all = append(all, &sbs.ExpiringFileContracts[j].StateElement)
+			}
+			const room = 8
+			for _, se := range all {
+				q := make([]types.Hash256, len(se.MerkleProof), len(se.MerkleProof)+room)
+				copy(q, se.MerkleProof)
+				for k, full := len(q), q[:cap(q)]; k < cap(q); k++ {
+					full[k] = types.Hash256{0x5e, 0x17, byte(k)}
+				}
+				se.MerkleProof = q
+			}
+			before, beforeSupp := fullBlockBytes(sb), suppBytes(sbs)
+			nsS, _ := consensus.ApplyBlock(s, sb, sbs, ats)
+			if !bytes.Equal(encodeState(nsS), encodeState(ns)) {
+				w.violate("C09", "apply-depends-on-capacity", ctx+": ApplyBlock reached another state when the input proofs had spare capacity")
+			}
+			dirty := !bytes.Equal(fullBlockBytes(sb), before) || !bytes.Equal(suppBytes(sbs), beforeSupp)
+			for _, se := range all {
+				for k, full := len(se.MerkleProof), se.MerkleProof[:cap(se.MerkleProof)]; k < len(full); k++ {
+					dirty = dirty || full[k] != (types.Hash256{0x5e, 0x17, byte(k)})
+				}
+			}
+			if dirty {
+				w.violate("C09", "apply-mutates-input", ctx+": ApplyBlock wrote into its inputs' proofs (or into the spare capacity behind them)")
+			}
+			w.stats.Inc("probe.c09.spare-capacity")
+		}
+	}
 	// decoded copy
 	db, derr := decodeBlock(encodeBlock(b))
 	if derr == nil {
